@@ -232,6 +232,25 @@ impl From<cli::Opt> for Config {
             fatal("Option 'blame-palette' must not be empty.")
         }
 
+        // Check now what the first line of blame output would otherwise find wrong: by then a
+        // pager is running, which an error exit must not leave behind.
+        for format_string in [
+            &opt.line_numbers_left_format,
+            &opt.line_numbers_right_format,
+        ] {
+            crate::format::parse_line_number_format(
+                format_string,
+                &crate::features::line_numbers::LINE_NUMBERS_PLACEHOLDER_REGEX,
+                false,
+            );
+        }
+        handlers::blame::check_blame_options(
+            &blame_palette,
+            &opt.blame_format,
+            opt.blame_timestamp_output_format.as_deref(),
+            opt.git_config.as_ref(),
+        );
+
         let file_added_label = opt.file_added_label;
         let file_copied_label = opt.file_copied_label;
         let file_modified_label = opt.file_modified_label;
